@@ -181,6 +181,10 @@ M = [
   "            self.bytes.try_reserve(additional)?;", "            let _ = self.bytes.try_reserve(additional);"),
  ("c10_header_size_unchecked", "C10", "header-size-checked_sub", "crates/jxl-bitstream/src/container/box_header.rs",
   "                let xlbox = xlbox.checked_sub(16).ok_or(Error::InvalidBox)?;", "                let xlbox = xlbox.wrapping_sub(16);"),
+ ("c03_palette_delta_le", "C03", "predict-iff-index-below-nb_deltas", "crates/jxl-modular/src/transform/palette.rs",
+  "                if index < nb_deltas {\n                    need_delta.push", "                if index <= nb_deltas {\n                    need_delta.push"),
+ ("c03_palette_delta_vs_nb_colors", "C03", "predict-iff-index-below-nb_deltas", "crates/jxl-modular/src/transform/palette.rs",
+  "                if index < nb_deltas {\n                    need_delta.push", "                if index < nb_colors {\n                    need_delta.push"),
  ("c01_cluster_map_decoder_two_dists", "C01", "bound-lost", "crates/jxl-coding/src/lib.rs",
   "            Decoder::parse(bitstream, 1)?\n        };\n        decoder.begin(bitstream)?;", "            Decoder::parse(bitstream, num_dist.min(2))?\n        };\n        decoder.begin(bitstream)?;"),
 ]
